@@ -192,6 +192,8 @@ pub fn tod_any() -> BS<i128> {
     wunion(vec![
         // only some of the fields h / min / s / ms / us / ns non-zero (e.g. 00:00:00.000250000)
         (2, (1u8..64, any::<u64>()).prop_map(|(m, r)| tod_masked(m, r)).boxed()),
+        // the first and last 40 s of the day (where a date read on another axis - TAI vs UTC - is the next / previous day)
+        (1, (0i128..40 * NS_S, any::<bool>()).prop_map(|(t, end)| if end { NS_D - 1 - t } else { t }).boxed()),
         // the same for the time left to the next midnight (what a count before a reference epoch decomposes into)
         (1, (1u8..64, any::<u64>()).prop_map(|(m, r)| NS_D - tod_masked(m, r)).boxed()),
         (2, Just(0i128).boxed()),
@@ -272,6 +274,11 @@ pub fn tai_count_any() -> BS<i128> {
         (1, (0usize..9, near_offset()).prop_map(|(s, off)| {
             let z = match s { S_ET | S_TDB => j2000_ns(), S_UTC => 0, _ => zero_tai_ns(s) };
             -z + off
+        }).boxed()),
+        // the mirror image about 1900 of each leap entry (UTC and TAI axis), +- 40 s
+        (1, (0usize..28, any::<bool>(), near_offset()).prop_map(|(i, tai_axis, off)| {
+            let (ts, _before, after) = leap_entries_ns()[i];
+            -(ts + if tai_axis { after as i128 * NS_S } else { 0 }) + off
         }).boxed()),
         // a day of years 0001-9999 with time-of-day classes
         (4, ns1900_0001_9999()),
